@@ -52,6 +52,16 @@ Record target := mkTgt {
 }.
 
 Definition tgt0 : target := mkTgt Running [] None None [] None None.
+(* an instant-spawned target still inside pre_start: status Starting (active, accepts), its loop
+   does not run until pre_start returns *)
+Definition tgtS : target := mkTgt Starting [] None None [] None None.
+
+(* pre_start / post_start are over: the loop starts (set_status is a fetch_max) *)
+Definition tgt_start (g : target) : target :=
+  match g_status g with
+  | Starting => mkTgt Running (g_mbox g) (g_stop g) (g_kill g) (g_log g) (g_exit g) (g_left g)
+  | _ => g
+  end.
 
 Definition note_left (now : N) (g : target) : option N :=
   match g_left g with Some t => Some t | None => if is_active (g_status g) then Some now else None end.
@@ -84,6 +94,7 @@ Definition tgt_exit (now : N) (r : reason) (o : option nat) (g : target) : targe
 Definition tgt_poll (now : N) (g : target) : target :=
   match g_status g with
   | Stopped => g
+  | Starting => g          (* parked in pre_start: the loop is not running yet *)
   | _ =>
     match g_kill g with
     | Some o => tgt_exit now RKilled o g
@@ -104,6 +115,7 @@ Definition tgt_poll (now : N) (g : target) : target :=
 Definition tgt_enabled (g : target) : bool :=
   match g_status g with
   | Stopped => false
+  | Starting => false
   | _ => match g_kill g, g_stop g, g_mbox g with
          | None, None, [] => false
          | _, _, _ => true
@@ -143,13 +155,14 @@ Record state := mkState {
   effs : list eff        (* ghost: every effect a timer task had on its target, in order *)
 }.
 
-Definition init (t : N) : state := mkState t tgt0 [] [].
+Definition init (t : N) (parked : bool) : state := mkState t (if parked then tgtS else tgt0) [] [].
 
 Inductive label :=
 | Advance (dt : N)         (* the clock moves (and the time driver takes its turn) *)
 | Poll (i : nat)           (* one micro-step of timer task i *)
 | Abort (i : nat)          (* JoinHandle::abort on timer i *)
 | TgtPoll                  (* one iteration of the target's loop *)
+| TgtStart                 (* the target's pre_start / post_start return: Starting -> Running *)
 | TStop (r : reason)       (* somebody calls target.stop(r) *)
 | TKill                    (* somebody calls target.kill() *)
 | TDrain                   (* somebody calls target.drain() *)
@@ -237,6 +250,7 @@ Definition step (s : state) (l : label) : state :=
       | None => s
       end
   | TgtPoll => mkState (now s) (tgt_poll (now s) (tgt s)) (timers s) (effs s)
+  | TgtStart => mkState (now s) (tgt_start (tgt s)) (timers s) (effs s)
   | TStop r => mkState (now s) (tgt_stop r None (tgt s)) (timers s) (effs s)
   | TKill => mkState (now s) (tgt_kill None (tgt s)) (timers s) (effs s)
   | TDrain => mkState (now s) (tgt_drain (now s) (tgt s)) (timers s) (effs s)
@@ -294,7 +308,8 @@ Inductive op :=
 | ODrain
 | OSettle
 | OAdv (dt : N)
-| OProbe.
+| OProbe
+| OOpen.                  (* release the gate in the target's pre_start *)
 
 Inductive task := TT (i : nat) | TA.
 Definition task_eqb (a b : task) : bool :=
@@ -379,12 +394,13 @@ Definition exec_op_gen (tf f : nat) (dp : drv * list (N * bool * list bool)) (o 
       let d1 := dstep (settle tf f d) (Advance dt) in
       (wake_fired d1, pr)
   | OProbe => let d1 := settle tf f d in (d1, pr ++ [probe_of (d_s d1)])
+  | OOpen => (wake_tgt (dstep d TgtStart), pr)
   end.
 
 Definition exec_op := exec_op_gen FUEL FUEL.
 
-Definition exec (ops : list op) : drv * list (N * bool * list bool) :=
-  fold_left exec_op ops (mkDrv (init 0) [] [], []).
+Definition exec (parked : bool) (ops : list op) : drv * list (N * bool * list bool) :=
+  fold_left exec_op ops (mkDrv (init 0 parked) [] [], []).
 
 (* ---------- observations (printed in the same syntax by the Rust harness) ---------- *)
 Inductive hres := HOk | HErr | HUnit | HCancelled | HPending | HPanic.
@@ -402,8 +418,8 @@ Record obs := mkObs {
   o_probes : list (N * bool * list bool)
 }.
 
-Definition observe (ops : list op) : obs :=
-  let (d, pr) := exec (ops ++ [OSettle]) in
+Definition observe (parked : bool) (ops : list op) : obs :=
+  let (d, pr) := exec parked (ops ++ [OSettle]) in
   let s := d_s d in
   mkObs (g_log (tgt s)) (map hres_of (timers s))
         (match g_exit (tgt s) with Some (r, _, t) => Some (r, t) | None => None end) pr.
@@ -474,7 +490,21 @@ Fixpoint first_ge (pts : list N) (x : N) : option N :=
 (* a log entry: from a message timer, never early, not later than the first instant at which
    the runtime got to run at or after the k-th wheel deadline (k periods after creation: no
    drift), never after an abort took place strictly earlier, at most once *)
-Definition check_entry (pts : list N) (tis : list tinfo) (log : list (nat * N * N)) (e : nat * N * N) : bool :=
+(* time at which the target's pre_start gate is opened *)
+Fixpoint open_time (ops : list op) (t : N) : option N :=
+  match ops with
+  | [] => None
+  | OOpen :: _ => Some t
+  | OAdv dt :: r => open_time r (t + dt)
+  | _ :: r => open_time r t
+  end.
+
+(* a target parked in pre_start handles what it was sent when it starts: such an entry may be
+   later than its deadline / an abort, but then it carries exactly the opening time *)
+Definition at_open (topen : option N) (t : N) : bool :=
+  match topen with Some o => t =? o | None => false end.
+
+Definition check_entry (topen : option N) (pts : list N) (tis : list tinfo) (log : list (nat * N * N)) (e : nat * N * N) : bool :=
   match e with
   | (i, k, t) =>
       match nth_error tis i with
@@ -487,10 +517,10 @@ Definition check_entry (pts : list N) (tis : list tinfo) (log : list (nat * N * 
            end)
           && (ti_born ti + k * ti_dur ti <=? t)
           && (match first_ge pts (ceil_ms (ti_born ti + k * ti_dur ti)) with
-              | Some p => t <=? p
+              | Some p => (t <=? p) || at_open topen t
               | None => false
               end)
-          && (match ti_abort ti with Some ta => t <=? ta | None => true end)
+          && (match ti_abort ti with Some ta => (t <=? ta) || at_open topen t | None => true end)
           && Nat.eqb (count_log i k log) 1
       end
   end.
@@ -556,9 +586,9 @@ Definition check_probe (tis : list tinfo) (ex : option (reason * N)) (p : N * bo
   | _, None => true
   end.
 
-Definition check_C12 (ops : list op) (o : obs) : bool :=
+Definition check_C12 (parked : bool) (ops : list op) (o : obs) : bool :=
   let tis := scan ops 0 [] in
-  forallb (check_entry (time_points ops 0) tis (o_log o)) (o_log o)
+  forallb (check_entry (if parked then open_time ops 0 else None) (time_points ops 0) tis (o_log o)) (o_log o)
   && forallb (fun e => match o_exit o with Some (_, te) => snd e <=? te | None => true end) (o_log o)
   && check_all_res (o_log o) (o_exit o) 0 tis (o_res o)
   && check_exit ops tis (o_exit o)
